@@ -290,6 +290,19 @@ def repo_case(ctx, drv, gfm, gmm):
         # the property, part 1: the output verifies and is exact
         if not check_output(ctx, root, scen, 'metamanifest'):
             return
+        # ... also when the generator runs over its own output after a few edits (the periodic run on a live tree: the split
+        # top level Manifest + Manifest.files.gz of the earlier run is there)
+        if p.returncode == 0 and rng.random() < 0.7:
+            edits2 = edit(rng, root2)
+            p2 = subprocess.run([sys.executable, os.path.join(REPO, 'utils', 'gen_fast_metamanifest.py'), root2],
+                                stdout=subprocess.PIPE, stderr=subprocess.STDOUT, timeout=300)
+            scen_r = dict(scen, regenerated=True, edits=edits2)
+            ctx.count('regeneration:' + ('ok' if p2.returncode == 0 else 'failed'))
+            ctx.case(json.dumps([scen_r['tree'][:50], edits2], sort_keys=True)[:100000], True, {'regenerated': True, 'edits': len(edits2)})
+            if p2.returncode != 0:
+                ctx.fail('regeneration-fails', scen_r, p2.stdout.decode(errors='replace')[-300:])
+            elif not check_output(ctx, root2, scen_r, 'regenerated'):
+                return
         # part 2: update with the ebuild profile finds nothing to change
         before = manifest_state(root)
         end = run_main(['update', '-p', 'ebuild', root])
